@@ -403,3 +403,151 @@ def ob_remove_pbc(tier):
             cases.append(Case(f"remove_pbc_from_coord, {'stack of 2 models, model ' + str(which) if stack else 'one model'}, box {BOXES[bi]}", base, run, wit, real_remove_pbc,
                               timeout=900, solver_ms=120000))
     return cases
+
+
+# ------------------------------------------------------------------------------- geometry on concrete inputs (class E)
+PTS = [(0.0, 0.0, 0.0), (1.0, 0.0, 0.0), (1.0, 2.0, 0.0), (1.5, 2.0, 3.0), (-2.0, 0.5, 1.0), (4.0, -1.0, 2.5), (0.25, 3.0, -1.0)]
+
+
+def _rot(axis_i, angle):
+    import numpy as np
+    axis = np.array([(1, 0, 0), (0, 1, 0), (0, 0, 1), (1, 1, 1), (1, -2, 0.5)][axis_i], dtype=float)
+    axis /= np.linalg.norm(axis)
+    K = np.array([[0, -axis[2], axis[1]], [axis[2], 0, -axis[0]], [-axis[1], axis[0], 0]])
+    return np.eye(3) + np.sin(angle) * K + (1 - np.cos(angle)) * (K @ K)
+
+
+def check_geometry(i0, i1, i2, i3, axis_i, angle_i, shape_i):
+    """distance / angle / dihedral vs their definitions (float64, written here), rigid-motion invariance, index variants,
+    all argument shapes - on the real functions with concrete points"""
+    import numpy as np
+    import biotite.structure as struc
+    P = np.array([PTS[i] for i in (i0, i1, i2, i3)], dtype=np.float64)
+    if len({i0, i1, i2, i3}) < 4:
+        return None
+    a, b, c, d = P
+    dist = float(np.linalg.norm(b - a))
+    v1, v2 = a - b, c - b
+    if np.linalg.norm(np.cross(v1, v2)) < 1e-6 or np.linalg.norm(np.cross(c - b, d - c)) < 1e-6:
+        return None              # collinear triples: angle / dihedral are not defined by a unique plane
+    ang = float(np.arccos(np.clip(np.dot(v1, v2) / np.linalg.norm(v1) / np.linalg.norm(v2), -1, 1)))
+    b1, b2, b3 = b - a, c - b, d - c
+    n1, n2 = np.cross(b1, b2), np.cross(b2, b3)
+    dih = float(np.arctan2(np.dot(np.cross(n1, n2), b2 / np.linalg.norm(b2)), np.dot(n1, n2)))
+    R = _rot(axis_i, [0.0, 0.7, np.pi / 2, 2.5, np.pi][angle_i])
+    t = np.array([3.0, -7.0, 11.0])
+    for label, Q in (("original", P), ("rigidly moved", P @ R.T + t)):
+        qa, qb, qc, qd = [q.astype(np.float32) for q in Q]
+        forms = {
+            "(3,)": (qa, qb, qc, qd),
+            "(n,3)": tuple(np.stack([q, q]) for q in (qa, qb, qc, qd)),
+            "(m,n,3)": tuple(np.stack([np.stack([q, q])] * 2) for q in (qa, qb, qc, qd)),
+            "mixed": (np.stack([qa, qa]), qb, qc, np.stack([qd, qd])),
+        }
+        fa, fb, fc, fd = forms[["(3,)", "(n,3)", "(m,n,3)", "mixed"][shape_i]]
+        got = (np.asarray(struc.distance(fa, fb), dtype=float), np.asarray(struc.angle(fa, fb, fc), dtype=float),
+               np.asarray(struc.dihedral(fa, fb, fc, fd), dtype=float))
+        for name, g, want in zip(("distance", "angle", "dihedral"), got, (dist, ang, dih)):
+            if not np.allclose(g, want, atol=2e-4):
+                return f"{name} of the {label} points (shapes {['(3,)', '(n,3)', '(m,n,3)', 'mixed'][shape_i]}) = {np.ravel(g)[:3].tolist()}, definition gives {want}"
+        disp = np.asarray(struc.displacement(fa, fb), dtype=float)
+        if not np.allclose(disp, (Q[1] - Q[0]), atol=2e-4):
+            return f"displacement of the {label} points (shapes index {shape_i}) = {np.ravel(disp)[:3].tolist()}, b - a = {(Q[1] - Q[0]).tolist()}"
+        # index-based variants on an atom array / coordinate array
+        coords = Q.astype(np.float32)
+        if not np.allclose(struc.index_distance(coords, np.array([[0, 1], [1, 0], [2, 3]])), [dist, dist, np.linalg.norm(d - c)], atol=2e-4):
+            return f"index_distance ({label})"
+        if not np.allclose(struc.index_angle(coords, np.array([[0, 1, 2]])), [ang], atol=2e-4):
+            return f"index_angle ({label})"
+        if not np.allclose(struc.index_dihedral(coords, np.array([[0, 1, 2, 3], [3, 2, 1, 0]])), [dih, dih], atol=2e-4):
+            return f"index_dihedral ({label})"
+        if not np.allclose(struc.index_displacement(coords, np.array([[0, 1], [3, 2]])), [Q[1] - Q[0], Q[2] - Q[3]], atol=2e-4):
+            return f"index_displacement ({label})"
+        cen = np.asarray(struc.centroid(coords), dtype=float)
+        if not np.allclose(cen, Q.mean(axis=0), atol=2e-4):
+            return f"centroid ({label})"
+    return None
+
+
+def check_cell(li, ai):
+    """unit cell <-> box vectors are mutually inverse; box vectors have the requested lengths and angles"""
+    import numpy as np
+    import biotite.structure as struc
+    lengths = [(4.0, 5.0, 6.0), (10.0, 10.0, 10.0), (3.5, 7.25, 12.0)][li]
+    angles = [(90, 90, 90), (90, 100, 90), (80, 95, 110), (60, 60, 60), (90, 90, 120)][ai]
+    al, be, ga = [np.deg2rad(x) for x in angles]
+    box = struc.vectors_from_unitcell(*lengths, al, be, ga)
+    if box.shape != (3, 3):
+        return f"shape {box.shape}"
+    L = np.linalg.norm(box, axis=1)
+    if not np.allclose(L, lengths, atol=1e-3):
+        return f"box vector lengths {L.tolist()} for cell {lengths}"
+    cos = lambda u, v: float(np.dot(u, v) / np.linalg.norm(u) / np.linalg.norm(v))
+    if not np.allclose([cos(box[1], box[2]), cos(box[0], box[2]), cos(box[0], box[1])], np.cos([al, be, ga]), atol=1e-3):
+        return f"box vector angles differ from {angles}"
+    back = struc.unitcell_from_vectors(box)
+    if not np.allclose(back, list(lengths) + [al, be, ga], atol=1e-3):
+        return f"unitcell_from_vectors(vectors_from_unitcell({lengths}, {angles})) = {np.asarray(back).tolist()}"
+    if bool(struc.is_orthogonal(box)) != (angles == (90, 90, 90)):
+        return f"is_orthogonal = {bool(struc.is_orthogonal(box))} for angles {angles}"
+    return None
+
+
+def check_remove_pbc_concrete(bi, depth):
+    """a chain whose atoms were wrapped arbitrarily: after remove_pbc_from_coord every atom has moved by a lattice vector
+    and consecutive atoms are one minimum-image step apart - per model for stacks with one box or one box per model"""
+    import numpy as np
+    import biotite.structure as struc
+    box = np.array(BOXES[bi], dtype=np.float64)
+    n = 8
+    chain = np.cumsum(np.array([[0.9, 0.3, -0.4], [0.7, -0.8, 0.5], [-0.2, 0.9, 0.9], [1.0, 0.1, 0.2]] * 2), axis=0) + 1.0
+    models = []
+    for k in range(max(depth, 1)):
+        shifts = np.array([[(a * 3 + k) % 3 - 1, (a + 2 * k) % 3 - 1, (a * a + k) % 3 - 1] for a in range(n)], dtype=float)
+        models.append(chain + 0.37 * k + shifts @ box)
+    X = np.array(models) if depth else models[0]
+    res = np.asarray(struc.remove_pbc_from_coord(X.astype(np.float32), box.astype(np.float32)), dtype=float)
+    if res.shape != X.shape:
+        return f"shape {res.shape}"
+    for k, (Rm, Om) in enumerate(zip(res.reshape(-1, n, 3), X.reshape(-1, n, 3))):
+        fr = np.linalg.solve(box.T, (Rm - Om).T).T
+        if np.abs(fr - np.round(fr)).max() > 2e-3:
+            return f"model {k}: atoms moved by non-lattice vectors (box {BOXES[bi]}, depth {depth})"
+        step = np.linalg.norm(np.diff(Rm, axis=0), axis=1)
+        want = np.linalg.norm(np.diff(chain, axis=0), axis=1)
+        if not np.allclose(step, want, atol=2e-3):
+            return f"model {k}: consecutive atoms are {step.tolist()} apart after reassembly, the chain has steps {want.tolist()} (box {BOXES[bi]}, depth {depth})"
+    return None
+
+
+def ob_geometry_concrete(tier):
+    cases = []
+    v = z3.Ints("i0 i1 i2 i3 ax an sh")
+    npts = 5 if tier == "quick" else len(PTS)
+
+    def run_geo():
+        ex = cur()
+        c = ex.choose
+        return check_geometry(c(v[0], range(npts)), c(v[1], range(npts)), c(v[2], range(npts)), c(v[3], range(npts)), c(v[4], range(5)), c(v[5], range(5)), c(v[6], range(4))) is None
+
+    def rep(f, keys):
+        def g(w):
+            try:
+                r = f(*[w[k] for k in keys])
+                return r is None, str(r)
+            except Exception as e:
+                import traceback
+                return False, f"{type(e).__name__}: {e} | {traceback.format_exc()[-300:]}"
+        return g
+    base = [z3.And(x >= 0, x < npts) for x in v[:4]] + [v[4] >= 0, v[4] < 5, v[5] >= 0, v[5] < 5, v[6] >= 0, v[6] < 4, v[0] < v[3]]
+    keys = ["i0", "i1", "i2", "i3", "axis_i", "angle_i", "shape_i"]
+    for s_ in range(4):
+        cases.append(Case(f"distance / angle / dihedral / index variants, argument shapes {s_}", base + [v[6] == s_], run_geo, dict(zip(keys, v)), rep(check_geometry, keys)))
+    l, a = z3.Ints("l a")
+    cases.append(Case("unit cell <-> box vectors", [l >= 0, l < 3, a >= 0, a < 5], lambda: check_cell(cur().choose(l, range(3)), cur().choose(a, range(5))) is None,
+                      dict(li=l, ai=a), rep(check_cell, ["li", "ai"])))
+    b, d = z3.Ints("b d")
+    cases.append(Case("remove_pbc_from_coord on wrapped chains", [b >= 0, b < len(BOXES), d >= 0, d <= 3],
+                      lambda: check_remove_pbc_concrete(cur().choose(b, range(len(BOXES))), cur().choose(d, range(4))) is None,
+                      dict(bi=b, depth=d), rep(check_remove_pbc_concrete, ["bi", "depth"])))
+    return cases
